@@ -11,7 +11,8 @@ from harness import tlc as T
 from harness.core import canon
 
 ND, NS = 2, 2
-NFOLDS = {"n": 2, "presplit": False, "features": None, "single": False}
+NFOLDS = {"n": 2, "presplit": False, "features": None, "single": False, "uea": False, "cols": ["dim_0", "dim_1"]}
+N_TRAIN_UEA = 5
 N_INST = 8
 CALLS = {"n": 0, "crash": 0, "log": []}
 
@@ -45,7 +46,7 @@ class SigClassifier(BaseClassifier):
         # an object that is fitted again (instead of a fresh clone per fold) betrays itself in its predictions
         self.nfit_ = getattr(self, "nfit_", 0) + 1
         # ... and so does one that is not given exactly the feature columns (all columns but the target)
-        self.sig_ = sum(ids) + (self.nfit_ - 1) + (0 if list(X.columns) == (NFOLDS["features"] or ["dim_0", "dim_1"]) else 1)
+        self.sig_ = sum(ids) + (self.nfit_ - 1) + (0 if list(X.columns) == (NFOLDS["features"] or NFOLDS["cols"]) else 1)
         self.classes_ = np.unique(y)
         self._is_fitted = True
         return self
@@ -54,7 +55,7 @@ class SigClassifier(BaseClassifier):
         ids = [int(round(X["dim_0"].iloc[i].iloc[0])) for i in range(len(X))]
         self._tick(("predict", self.sid, tuple(ids)))
         # the feature columns of the task, in the task's order, at fit and at predict alike
-        bad = 0 if list(X.columns) == (NFOLDS["features"] or ["dim_0", "dim_1"]) == self.cols_ else 1
+        bad = 0 if list(X.columns) == (NFOLDS["features"] or NFOLDS["cols"]) == self.cols_ else 1
         return np.array([(self.sig_ * 7 + self.sid * 3 + i + bad) % 5 for i in ids])
 
 
@@ -80,7 +81,7 @@ def honest(d, s, train_pos, pos):
 
 def make_cv():
     from sklearn.model_selection import KFold, ShuffleSplit
-    if NFOLDS["presplit"]:       # pre-split data: rows labelled 'train' / 'test' (interleaved here), one fold
+    if NFOLDS["presplit"] or NFOLDS["uea"]:       # pre-split data: rows labelled 'train' / 'test', one fold
         from sktime.series_as_features.model_selection import PresplitFilesCV
         return PresplitFilesCV()
     if NFOLDS["single"]:         # the library's own single-split helper, seeded: the same split for every strategy and run
@@ -92,6 +93,8 @@ def make_cv():
 
 
 def folds():
+    if NFOLDS["uea"]:            # the rows of the TRAIN file, then those of the TEST file
+        return [(list(range(N_TRAIN_UEA)), list(range(N_TRAIN_UEA, N_INST)))]
     if NFOLDS["presplit"]:       # by definition, not by asking the splitter
         return [([i for i in range(N_INST) if i % 3 != 1], [i for i in range(N_INST) if i % 3 == 1])]
     if NFOLDS["single"]:         # by definition: scikit-learn's seeded split of the row positions
@@ -111,8 +114,23 @@ def do_run(path, o, crash):
     logging.disable(logging.CRITICAL)        # the orchestrator reports every skipped key on the console
     Clf = make_classifier()
     CALLS.update(n=0, crash=crash, log=[])
-    datasets = [RAMDataset(dataset(d), name="d%d" % d) for d in range(1, ND + 1)]
-    tasks = [TSCTask(target="class_val", features=NFOLDS["features"]) for _ in datasets]
+    if NFOLDS["uea"]:
+        # pre-split .ts files on disk, read through UEADataset with a target name of the user's choice
+        from sktime.benchmarking.data import UEADataset
+        root = path + "_data"
+        for d in range(1, ND + 1):
+            os.makedirs(os.path.join(root, "d%d" % d), exist_ok=True)
+            ids = [100 * d + i for i in range(N_INST)]
+            for suffix, part in (("_TRAIN", ids[:N_TRAIN_UEA]), ("_TEST", ids[N_TRAIN_UEA:])):
+                with open(os.path.join(root, "d%d" % d, "d%d%s.ts" % (d, suffix)), "w") as f:
+                    f.write("@problemName d%d\n@timeStamps false\n@univariate true\n@classLabel true 0 1\n@data\n" % d)
+                    for i in part:
+                        f.write(",".join([repr(float(i))] * 4) + ":%d\n" % (i % 2))
+        datasets = [UEADataset(path=root, name="d%d" % d, target_name="label") for d in range(1, ND + 1)]
+        tasks = [TSCTask(target="label") for _ in datasets]
+    else:
+        datasets = [RAMDataset(dataset(d), name="d%d" % d) for d in range(1, ND + 1)]
+        tasks = [TSCTask(target="class_val", features=NFOLDS["features"]) for _ in datasets]
     strategies = [TSCStrategy(Clf(sid=s), name="s%d" % s) for s in range(1, int(o.get("ns", NS)) + 1)]
     res = HDDResults(path=path)
     orch = Orchestrator(tasks=tasks, datasets=datasets, strategies=strategies, cv=make_cv(), results=res)
@@ -236,6 +254,7 @@ def observe(runs, workdir, tid):
         return {"crash": type(e).__name__ + ": " + str(e)[:140] + " @ " + traceback.format_exc().splitlines()[-3].strip()[:100]}
     finally:
         shutil.rmtree(path, ignore_errors=True)
+        shutil.rmtree(path + "_data", ignore_errors=True)
 
 
 def expected_of(run):
@@ -267,11 +286,13 @@ def run(ctx):
         NFOLDS["n"] = b["nf"]
         NFOLDS["presplit"] = bool(b["nf"] == 1 and i % 4 == 1)
         NFOLDS["single"] = bool(b["nf"] == 1 and i % 4 == 3)
-        NFOLDS["features"] = ["dim_1", "dim_0"] if i % 3 == 2 else None      # explicit feature list in another order than the data's
+        NFOLDS["uea"] = bool(b["nf"] == 1 and i % 4 == 2)
+        NFOLDS["cols"] = ["dim_0"] if NFOLDS["uea"] else ["dim_0", "dim_1"]
+        NFOLDS["features"] = ["dim_1", "dim_0"] if (i % 3 == 2 and not NFOLDS["uea"]) else None   # explicit feature list in another order than the data's
         obs = observe(runs, work, i)
         ctx.evaluations += 1
         sc = {"runs": [{"o": x["o"], "crash": x["crash"]} for x in runs], "folds": b["nf"], "presplit": NFOLDS["presplit"],
-              "features": NFOLDS["features"], "single": NFOLDS["single"]}
+              "features": NFOLDS["features"], "single": NFOLDS["single"], "uea": NFOLDS["uea"]}
         if isinstance(obs, dict):
             ctx.violation(sc, "machinery/crash: " + obs["crash"])
             continue
@@ -338,6 +359,8 @@ def replay(ctx, doc):
     NFOLDS["n"] = sc.get("folds", 2)
     NFOLDS["presplit"] = bool(sc.get("presplit"))
     NFOLDS["single"] = bool(sc.get("single"))
+    NFOLDS["uea"] = bool(sc.get("uea"))
+    NFOLDS["cols"] = ["dim_0"] if NFOLDS["uea"] else ["dim_0", "dim_1"]
     NFOLDS["features"] = sc.get("features")
     obs = observe(sc["runs"], work, 0)
     print(canon(obs)[:3000])
